@@ -6,7 +6,7 @@ from .effects import Effects
 
 IR_MODULES = ("src.ir.ast", "src.ir.types", "src.ir.context", "src.ir.builtins", "src.ir.java_types",
               "src.ir.kotlin_types", "src.ir.groovy_types", "src.ir.scala_types", "src.ir.node")
-FRESHISH = {"fresh", "deepfresh", "freshfield"}
+FRESHISH = {"fresh", "deepfresh"}
 
 
 def owner_class(f):
@@ -24,7 +24,9 @@ def classify(f, e):
     """-> (category, detail)
 
     categories:
-      fresh            every root tag is a freshly built object
+      fresh            every root tag is a freshly built object (a *field* of a fresh object is not: `(ns, decl)[1]`
+                       is the old declaration; only elements of a locally built container, reached by indexing alone,
+                       and constructor fields bound to deep copies count)
       self-state       the state of a non-IR object (visitor / analysis / transformation / translator)
       ctor-init        an IR class's __init__ filling in the object under construction
       container-param  subscript store / container mutator on a bare local, parameter or closure variable, possibly
@@ -35,6 +37,10 @@ def classify(f, e):
     """
     tags = set(e.tags)
     if tags <= FRESHISH:
+        return "fresh", None
+    if tags <= FRESHISH | {"freshfield"} and e.kind in ("sub-store", "mutcall", "del") and \
+            all(p == "[]" for p in e.path):
+        # `d = defaultdict(set); d[k].add(x)`: an element of a container built in this very function
         return "fresh", None
     selfish = {t for t in tags if t in ("self", "param:self")}
     rest = tags - FRESHISH - selfish
